@@ -360,11 +360,145 @@ fn two_hop_family(g: &mut G, ctx: &RunCtx) -> RunReport {
     }
 }
 
+/// The same link-local address on several interfaces (`fe80::1%1`, `fe80::1%4`): as many destinations as
+/// there are scope ids.  Whoever compares resolver entries by their IP address alone loses all but one.
+fn scoped_family(g: &mut G, ctx: &RunCtx) -> RunReport {
+    g.probe("family:link-local-address-on-several-interfaces");
+    let ll: IpAddr = "fe80::1".parse().unwrap();
+    let nsc = g.range(2, 3) as usize;
+    let scopes: Vec<u32> = [[1u32, 4, 7], [4, 1, 9], [2, 3, 5]][g.usize_below(3)][..nsc].to_vec();
+    let with_v4 = g.chance(1, 2);
+    let mut beh_of = |g: &mut G| match g.below(4) {
+        0 | 1 => ConnectBehaviour::Accept { latency_ns: *g.pick(&[0u64, 1, 120, 250]) * NS_PER_MS },
+        2 => ConnectBehaviour::Refuse { latency_ns: *g.pick(&[0u64, 20, 300]) * NS_PER_MS },
+        _ => ConnectBehaviour::Blackhole,
+    };
+    // resolver order: the scoped entries in this order; the library's order puts the IPv4 address second
+    let mut list: Vec<(SocketAddr, ConnectBehaviour)> = Vec::new();
+    for sc in &scopes {
+        let b = beh_of(g);
+        list.push((SocketAddr::V6(std::net::SocketAddrV6::new("fe80::1".parse().unwrap(), 80, 0, *sc)), b));
+    }
+    let v4: IpAddr = "192.0.2.1".parse().unwrap();
+    let b4 = beh_of(g);
+    let mut order = list.clone();
+    if with_v4 {
+        order.insert(1, (SocketAddr::new(v4, 80), b4));
+    }
+    let ct = 3_000 * NS_PER_MS;
+    let sim = Sim::new(ctx.sim_config());
+    let mut hosts: Vec<IpAddr> = scopes.iter().map(|_| ll).collect();
+    let mut host_scopes = scopes.clone();
+    if with_v4 {
+        // somewhere in the resolver's answer
+        let at = g.usize_below(hosts.len() + 1);
+        hosts.insert(at, v4);
+        host_scopes.insert(at, 0);
+    }
+    sim.add_host(HOST, hosts);
+    sim.set_host_scopes(HOST, host_scopes);
+    let seen = Arc::new(Mutex::new(Seen::default()));
+    let mk = |seen: Arc<Mutex<Seen>>| -> attosim::PeerFactory {
+        Box::new(move |_i| {
+            Box::new(HttpPeer::new(
+                Arc::new(move |_r, _c| {
+                    let mut s = Script::default();
+                    s.acts.push(Act::Send(b"HTTP/1.1 200 OK\r\nContent-Length: 2\r\n\r\nok".to_vec()));
+                    s.acts.push(Act::Fin);
+                    s
+                }),
+                seen.clone(),
+            ))
+        })
+    };
+    sim.add_listener(ll, 80, ConnectBehaviour::Blackhole, Some(mk(seen.clone())));
+    for (a, b) in &list {
+        if let SocketAddr::V6(a6) = a {
+            sim.set_scoped_behaviour(ll, a6.scope_id(), 80, *b);
+        }
+    }
+    if with_v4 {
+        sim.add_listener(v4, 80, b4, Some(mk(seen.clone())));
+    }
+    let out = sim.run(|| {
+        let start = attosim::now_ns();
+        let r = attohttpc::get(format!("http://{}/", HOST)).connect_timeout(Duration::from_nanos(ct)).read_timeout(Duration::from_secs(5)).send();
+        let res = match r {
+            Err(e) => Err(err_kind(&e)),
+            Ok(resp) => {
+                let st = resp.status().as_u16();
+                match resp.bytes() {
+                    Ok(b) => Ok((st, b)),
+                    Err(e) => Err(format!("body:{}", err_kind(&e))),
+                }
+            }
+        };
+        Obs { start, t_out: attosim::now_ns(), res }
+    });
+    let mut stats = Stats::default();
+    stats.absorb(&out.history);
+    let h = &out.history;
+    let beh = |b: &ConnectBehaviour| match b {
+        ConnectBehaviour::Accept { latency_ns } => format!("A{}", latency_ns / NS_PER_MS),
+        ConnectBehaviour::Refuse { latency_ns } => format!("R{}", latency_ns / NS_PER_MS),
+        ConnectBehaviour::Blackhole => "B".to_string(),
+    };
+    let desc = format!("order={:?} connect_timeout=3000ms", order.iter().map(|(a, b)| format!("{}={}", a, beh(b))).collect::<Vec<_>>());
+    let verdict = (|| -> Verdict {
+        let o = match &out.result {
+            None => return violation("hang", "connect never finished"),
+            Some(Err(m)) => return violation("panic", m.clone()),
+            Some(Ok(o)) => o,
+        };
+        if h.deadlock {
+            return violation("thread-leak", "racing threads blocked forever after the caller finished");
+        }
+        let mut best = u64::MAX;
+        for (i, (_, b)) in order.iter().enumerate() {
+            if let ConnectBehaviour::Accept { latency_ns } = b {
+                best = best.min(o.start + i as u64 * RACE + latency_ns);
+            }
+        }
+        let started: Vec<&attosim::ConnectRec> = h.connects.iter().chain(h.pending_connects.iter()).collect();
+        if let Some(c) = started.iter().find(|c| !order.iter().any(|(a, _)| *a == c.addr)) {
+            return violation("dialled-an-address-the-resolver-did-not-give", format!("{} ({})", c.addr, desc));
+        }
+        match &o.res {
+            Ok((200, _)) => {
+                let Some(c) = h.conns.first() else {
+                    return violation("harness:no-connection", desc.clone());
+                };
+                if !order.iter().any(|(a, b)| *a == c.addr && matches!(b, ConnectBehaviour::Accept { .. })) {
+                    return violation("served-by-non-accepting-address", format!("{} ({})", c.addr, desc));
+                }
+                if c.t_established > best {
+                    return violation("connected-later-than-the-race-allows", format!("connected to {} at {}ms, an accepting address was reachable by {}ms ({})", c.addr, c.t_established / NS_PER_MS, best / NS_PER_MS, desc));
+                }
+                Verdict::Pass
+            }
+            Ok((st, _)) => violation("harness:status", format!("status {}", st)),
+            Err(k) if best != u64::MAX => violation(format!("reachable-address-not-used:{}", k), format!("send() failed with {} although an address accepts ({})", k, desc)),
+            Err(_) => Verdict::Pass,
+        }
+    })();
+    RunReport {
+        verdict,
+        shape: format!("scoped/{}/v4={}/{:?}", nsc, with_v4, order.iter().map(|(_, b)| beh(b)).collect::<Vec<_>>()),
+        nontrivial: true,
+        stats,
+        sched_tape: out.sched_tape,
+        describe: if ctx.describe { desc } else { String::new() },
+    }
+}
+
 pub fn scenario(g: &mut G, ctx: &RunCtx) -> RunReport {
     let p = gen(g);
     // drawn after the plan: recorded tapes keep their meaning
     if g.chance(1, 8) {
         return two_hop_family(g, ctx);
+    }
+    if g.chance(1, 14) {
+        return scoped_family(g, ctx);
     }
     let sim = Sim::new(ctx.sim_config());
     if p.resolvable {
@@ -469,6 +603,15 @@ fn oracle(p: &Plan, o: &Obs, h: &History, g: &mut G) -> Verdict {
     // attempts actually started, by start time (ties keep kernel order)
     let mut started: Vec<&attosim::ConnectRec> = h.connects.iter().chain(h.pending_connects.iter()).collect();
     started.sort_by_key(|c| (c.t_start, c.seq));
+    // "before its attempt times out": no attempt - raced or alone - is given more than the connect timeout
+    if !p.ct_max {
+        if let Some(c) = started.iter().find(|c| c.timeout_ns > ct) {
+            return violation(
+                "attempt-given-more-than-the-connect-timeout",
+                format!("{} was dialled with a timeout of {}ms; connect_timeout is {}ms (overall timeout {:?}ms)", c.addr, c.timeout_ns / NS_PER_MS, p.ct_ms, p.t_ms),
+            );
+        }
+    }
     if p.addrs.len() >= 2 {
         g.probe("raced");
         // (1) the started set is a prefix of the expected order; start times are non-decreasing along it
